@@ -126,3 +126,5 @@ func setVal(ctx *dyntpl.Ctx, name string, b []byte, carrier int) string {
 		return "SetStatic(string)"
 	}
 }
+
+func stack() []byte { return debug.Stack() }
